@@ -211,6 +211,10 @@ class Sh:
             g = ml.Gen(r, r.choice(["loops", "errors", "functions"]))
             funcs, prog = g.program()
             chunks = ml.render(funcs, prog, r, toplevel_split=True)
+            if any(c.startswith("function") and re.search(r"\breturn\s*;", c) for c in chunks):
+                # a function declared `return integer` that ends with a bare `return;` yields an untyped null: the manual says the declared
+                # return type "imposes no constraints at runtime", so the compile-time type of its calls is not a promise (outside the property)
+                bump(self.res, "generated_with_bare_return_skipped"); continue
             self.twin_case(chunks, "generated")
             if self.res["counters"].get("worker_crashes", 0) > CRASH_BUDGET: return
         # a variable re-assigned from an opaque expression is opaque for the rest of the unit (manual: opaque values are checked at run time):
